@@ -116,8 +116,9 @@ MUTS = [
     "none", "none_high_s", "neg_s", "z+1", "z-1", "z+n", "z_random", "other_key",
     "r+1", "r-1", "s+1", "s-1", "r=0", "s=0", "r=n", "s=n", "r+n", "s+n", "r=2^256-1",
     "s=2^256-1", "random_rs", "rx_ge_n_valid", "rx_ge_n_unreduced", "r_neg", "s_neg",
-    "swap_rs", "neg_pub", "uG_equals_vP", "uG_equals_minus_vP",
+    "swap_rs", "neg_pub", "uG_equals_vP", "uG_equals_minus_vP", "valid_s_edge", "valid_r_small",
 ]
+S_EDGES = [1, 2, 3, N - 1, N - 2, N - 3, N // 2, N // 2 + 1, N // 2 - 1, 2**255, 2**255 - 1, 2**128, 0xFF, 0x100]
 
 
 def verify_strategy(tier):
@@ -208,6 +209,27 @@ def build_tuple(case):
             s = case["aux2"] % N
         if r == 0 or s == 0:
             return None
+    elif mut == "valid_s_edge":
+        # a VALID tuple whose s sits at an end of [1, n-1] (or around n/2, 2^255): the digest is chosen
+        # for the nonce, z = s*k - r*d
+        R = ec.mul(k)
+        r = R[0] % N
+        s = S_EDGES[case["j"] % len(S_EDGES)]
+        z = (s * k - r * d) % N
+        if r == 0:
+            return None
+    elif mut == "valid_r_small":
+        # a VALID tuple whose r is tiny (1, 2, 3, ...): R is lifted from x = r and the key recovered
+        x = 1 + case["j"] % 50
+        R = None
+        while R is None:
+            R = ec.lift_x(x, odd=bool(case["aux"] & 1))
+            if R is None:
+                x += 1
+        r, s, z = x, case["aux2"], case["z"]
+        pub = ec.mul(pow(r, -1, N), ec.add(ec.mul(s, R), ec.neg(ec.mul(z))))
+        if pub is None:
+            return None
     elif mut in ("rx_ge_n_valid", "rx_ge_n_unreduced"):
         # construct a signature whose nonce point has x in [n, p)
         x = N + case["j"]
@@ -244,7 +266,8 @@ def check_verify(case, ctx):
     ctx.nontrivial(mut != "none")
     want = ec.ecdsa_verify(pub, z, r, s)
     ctx.label("ref_valid" if want else "ref_invalid")
-    if mut in ("none", "none_high_s", "neg_s", "z+n", "rx_ge_n_valid", "uG_equals_vP"):
+    if mut in ("none", "none_high_s", "neg_s", "z+n", "rx_ge_n_valid", "uG_equals_vP", "valid_s_edge",
+               "valid_r_small"):
         assert want, mut
     if mut == "uG_equals_minus_vP":
         assert not want, mut
